@@ -91,6 +91,11 @@ where
         "data" => match image().and_then(|im| im.inner.data(&r)) { Ok(d) => classify(&d, zl), Err(e) => format!("err:{}", err_kind(&e)) },
         "rawimage" => match image().and_then(|im| im.raw_image_data(&r).map(|(d, _)| d)) { Ok(d) => classify(&d, zl), Err(e) => format!("err:{}", err_kind(&e)) },
         "image" => match image().and_then(|im| im.image_data(&r)) { Ok(d) => classify(&d, zl), Err(e) => format!("err:{}", err_kind(&e)) },
+        // the undecoded bytes of the stream object (Resolve::stream_data)
+        "rawdata" => match r.resolve(pr).and_then(|p| p.into_stream(&r)).and_then(|st| st.raw_data(&r)) {
+            Ok(d) => if crate::refcodec::hex_decode(&d).as_deref() == Some(zl) { "raw".into() } else { classify(&d, zl) },
+            Err(e) => format!("err:{}", err_kind(&e)),
+        },
         c => panic!("unknown call {}", c),
     }
 }
